@@ -106,17 +106,27 @@ class Worker(threading.Thread):
 
 
 class Fleet:
+    max_workers = 36
+
     def __init__(self):
         self.workers = {}
         self.lock = threading.Lock()
 
     def submit(self, env, task, timeout=180):
         key = (env['hash_seed'], env.get('enum_seed'))
+        retire = []
         with self.lock:
             w = self.workers.get(key)
             if w is None:
                 w = Worker(*key)
                 self.workers[key] = w
+                # a new phase (enumeration order) has started: retire idle workers of older orders
+                if len(self.workers) > self.max_workers:
+                    for k, old in list(self.workers.items()):
+                        if k[1] != key[1] and old.q.empty() and len(self.workers) - len(retire) > self.max_workers // 2:
+                            retire.append(self.workers.pop(k))
+        for old in retire:
+            old.q.put(None)
         fut = Future()
         w.q.put((fut, task, timeout))
         return fut
@@ -141,8 +151,9 @@ atexit.register(FLEET.close)
 
 
 def envs_for(seed, n, phase=0):
-    """The n worker environments of a check invocation: distinct hash seeds, one enumeration seed per phase."""
-    enum_seed = core.sub_int(seed, 'enum', phase, bits=30)
+    """The n worker environments of a phase of a check invocation: distinct hash seeds, one enumeration order per
+    phase (phase 0: the native order of the host file system; later phases: seeded permutations)."""
+    enum_seed = None if phase == 0 else core.sub_int(seed, 'enum', phase, bits=30)
     return [{'hash_seed': core.sub_int(seed, 'hashseed', phase, j, bits=32), 'enum_seed': enum_seed} for j in range(n)]
 
 
@@ -427,9 +438,15 @@ class PCheck(core.Check):
 
     def generate(self, rng, run_index, tier):
         seed = int(os.environ.get('VERIF_SEED', '0') or 0)
-        envs = envs_for(seed, self.nworkers(tier))
+        envs = envs_for(seed, self.nworkers(tier), self.phase_of(run_index, tier))
         task = gen_task(rng, tier, self.focus)
         return {'env': envs[run_index % len(envs)], 'task': task}
+
+    def phase_of(self, run_index, tier):
+        """Enumeration order changes between phases of a check invocation (quick: 2 phases, thorough: every 400 runs)."""
+        runs = int(os.environ.get('VERIF_RUNS', self.budgets(tier)['runs']))
+        length = 400 if tier == 'thorough' else max(1, (runs + 1) // 2)
+        return run_index // length
 
     def describe(self, scenario):
         t = scenario['task']
@@ -840,7 +857,7 @@ class C11Check(PCheck):
 
     def generate(self, rng, run_index, tier):
         seed = int(os.environ.get('VERIF_SEED', '0') or 0)
-        envs = envs_for(seed, self.nworkers(tier))
+        envs = envs_for(seed, self.nworkers(tier), self.phase_of(run_index, tier))
         task = gen_task(rng, tier, 'C11')
         task.pop('fs', None)
         if '-o' not in task['argv']:
